@@ -38,6 +38,15 @@ CHECKS = {
  "C13": dict(cat="model_checking", tech="explicit-state BFS with enumeration oracles in every state and mutation-during-iteration as alphabet operations; exhaustive loaded-slab subsets",
    text="In every state of array/map/collision closures and trajectory neighbourhoods: every enumeration flavour (read-only, mutable, callback forms, keys/values only, NextKey/NextValue, all ranges incl. invalid classes, loaded-values for every subset of loaded non-root slabs) equals the model's canonical sequence and agrees with lookups; overwriting the current element / growing a nested child at every cursor position during mutable iteration never skips or repeats; map bulk pop yields the reverse canonical order; children from read-only iterators refuse mutation.",
    note="Loaded-subset enumeration is exhaustive up to 6 non-root slabs per tree (singletons and co-singletons above).", ref="§5 C13"),
+ "C17": dict(cat="model_checking", tech="exhaustive enumeration of bulk-API inputs (all streams up to a length, all tail patterns per length, all small copy sources, all byte lengths) on the real implementation with the full oracle set",
+   text="All element streams over 4 size classes up to length 8 (10 thorough) and every length up to 120 (600) with all tail patterns through NewArrayFromBatchData; NewMapFromBatchData from every source size and every 3-key digest assignment plus negative streams; CopyNonRefSimple offered <=> single slab of plain elements over all <=3-element sources (7 element kinds, standalone/inlined) with byte-identical registers of the untouched side after every single mutation of the other; ByteSliceToByteArray for every length and estimated-size argument with round trip; each result checked by content, verifiers, structure/size/round-trip/reachability oracles and the health check.",
+   note="Stream lengths beyond the bounds are not enumerated; the tail family covers the under-full last leaf / last index slab logic.", ref="§5 C17"),
+ "C18": dict(cat="model_checking", tech="explicit-state BFS with every invalid request class as alphabet operations; no-trace oracle on the canonical state text; exhaustive callback-failure injection per lookup",
+   text="In every state of array/map/collision/nested closures and trajectory neighbourhoods every invalid request (out-of-range indexes incl. 2^32 and 2^64-1, absent keys at every digest position, inserts over the collision limit, through nested handles, undefined/absent identifiers) must return the documented error type and category and leave content, structure, write set and slab population unchanged; a failure injected into the i-th comparator / hash-input / ledger-read call of every lookup, for every i, must surface as an external error.",
+   note="'No trace' ignores the read cache and handle-private tables (not part of the container, ancestors or write set).", ref="§5 C18"),
+ "C20": dict(cat="model_checking", tech="explicit-state BFS over healthy storages x exhaustive single-slab corruption enumeration (fault enumeration per state)",
+   text="For every state of the explored spaces (two roots, large values, standalone/inlined children, external collision groups, multi-level trees), fully loaded on persistent and basic storages: health check succeeds with exactly the live roots; every referenced slab deleted in four ways, an unreferenced slab added, a second reference to every referenced slab from every same-owner root, and a foreign-owner child each make it fail; GetAllChildReferences equals the independent (resolvable, broken) partition for every slab, healthy and after each deletion.",
+   note="Corruptions are single-slab and built through public APIs.", ref="§5 C20"),
  "C09": dict(cat="model_checking", tech="explicit-state BFS; independent reachability oracle (storage IDs == reachable IDs) before and after commit",
    text="With the harness disposing of every value handed back, after every transition (and again after commit) the slab IDs held by write set + ledger must equal the IDs reachable from live roots by an independent traversal, each referenced once, one owner per tree; alphabets are biased to auxiliary slabs (externalised values/keys, inline<->standalone children, bulk pops).",
    note="CheckStorageHealth is used only as a second opinion (C20 decides its trustworthiness).", ref="§5 C09"),
